@@ -9,7 +9,22 @@ use std::collections::{BTreeMap, BTreeSet};
 use std::panic::{AssertUnwindSafe, catch_unwind};
 
 pub const DEFAULT_SEED: u64 = 20260921;
-pub const VERIF_DIR: &str = "/verif";
+/// Root of the verification tree: `$VERIF_HOME`, else derived from the location of this binary
+/// (`<root>/sim/target/release/dst`), else `/verif`. Evidence, replays and known findings live
+/// under it, so a snapshot of the tree run elsewhere does not write into the original.
+pub fn verif_dir() -> String {
+    if let Ok(h) = std::env::var("VERIF_HOME") {
+        return h;
+    }
+    if let Ok(exe) = std::env::current_exe() {
+        if let Some(root) = exe.ancestors().nth(4) {
+            if root.join("properties.jsonl").is_file() {
+                return root.to_string_lossy().to_string();
+            }
+        }
+    }
+    "/verif".to_string()
+}
 pub const REPO_DIR: &str = "/repo";
 
 #[derive(Clone, Copy, PartialEq, Eq, Debug)]
